@@ -931,6 +931,13 @@ func (obj *Package) GetFunc(name string) (fi *FuncInfo) {
 // DefLambda registers a named lambda function. This is called by defun.
 func (obj *Package) DefLambda(name string, lam *Lambda, fc func(args List) Object, kind Symbol) (fi *FuncInfo) {
 	obj.mu.Lock()
+	if fi := obj.funcs[name]; fi != nil && fi.Pkg != nil && fi.Pkg != obj && fi.Pkg.funcs[name] == fi {
+		// A function inherited from a used package is redefined in, and
+		// stays with, the package that owns it.
+		owner := fi.Pkg
+		obj.mu.Unlock()
+		return owner.DefLambda(name, lam, fc, kind)
+	}
 	if xlam := obj.lambdas[name]; xlam != nil {
 		xlam.Doc = lam.Doc
 		xlam.Forms = lam.Forms
